@@ -137,3 +137,17 @@ Theorem C02_precommit_weight_is_sum : forall batch, (0 < batch)%nat -> forall gh
   exists L : list chain, i_pc e = wsum (p_vals p) (map genC L) /\ NoDup (map genC L) /\
     forall P, In P L -> prefix P K /\ pc_evD batch gh s0 (i_height e) P /\ noprec (v_act (s_votes s)) (genC P) (i_height e).
 Proof. intros batch Hb gh c s0 Hi K s Hv. exact (di_pc batch gh s0 K s (dinv_view batch Hb gh c s0 Hi K s Hv)). Qed.
+
+(* ------------------------------------------------------------------ the wrap-faithful model (BFT/Votes32.v) *)
+(* Votes32.v re-defines every arithmetic step of the vote model with Go's uint32/uint64 wrap-around (heights +1/-1, weight sums,
+   the repaired prevote-threshold formula and the overflow rejection, the parameter-cache loop over heights). On every valid
+   chain whose heights stay <= 2^32-2 and whose aggregate weights stay < 2^64 it computes exactly what the unbounded model
+   computes (results AND error codes), so every theorem above transfers to the wrap-faithful model under exactly that bound.
+   The refutations show what happens AT the bound. *)
+From LE Require Import BFT.Votes32 BFT.Votes32Proofs.
+Theorem C02_votes32_agrees : forall batch gh c s0 K, (0 < batch)%nat ->
+  init_store batch gh c = Ok s0 -> total_weight (c_vals c) < M64 ->
+  validD_decl batch gh s0 K -> gh + N.of_nat (length K) < M32 - 1 ->
+  (forall x, In x K -> cert_ok (fst x) /\ chg_ok x) ->
+  init_store32 batch gh c = Ok s0 /\ run_blocks32 batch s0 K = run_blocks batch s0 K.
+Proof. exact votes32_agrees_valid. Qed.
